@@ -147,8 +147,8 @@ pub fn replay<Z9: crate::src::Src>(s: &mut Z9, out: &mut Vec<(String, String, St
             focus_traits |= set(getattr(self.reg[u.trait], "COVERS", []))
         body = []
         body.append(P.tags.get("verus_pre_items", ""))
-        if "Debug" in P.focus:
-            body.append("broadcast use {crate::fmt_ax::axiom_empty_struct_is_write_str, crate::fmt_ax::axiom_empty_tuple_is_write_str};")
+        bcast_at = len(body)
+        body.append("")
         body.append(P.typedef(False))
         log.append("dropped: `use educe::Educe`, derive + inert #[educe(..)] helper attributes; fields made pub")
         for im in impls:
@@ -158,12 +158,20 @@ pub fn replay<Z9: crate::src::Src>(s: &mut Z9, out: &mut Vec<(String, String, St
                 continue
             if tr == "inherent" and "Default" not in focus_traits:
                 continue
-            body.append(emit.render_impl(im, edits, drops, log))
+            rendered = emit.render_impl(im, edits, drops, log)
+            modr = self.reg.get(tr)
+            if modr is not None and hasattr(modr, "post_render") and tr in focus_traits:
+                rendered, extra = modr.post_render(P, rendered, log)
+                if extra:
+                    body.append(extra)
+            body.append(rendered)
             if tr not in focus_traits:
                 mod = self.reg.get(tr)
                 if mod is not None and hasattr(mod, "dummy_spec"):
                     body.append(mod.dummy_spec(P, im, tr) if mod.dummy_spec.__code__.co_argcount == 3 else mod.dummy_spec(P, im))
                     log.append("added inert spec impl for %s (obeys_*_spec = false)" % tr)
+        if "Debug" in P.focus:
+            body[bcast_at] = "broadcast use {%s};" % ", ".join(["crate::fmt_ax::axiom_empty_struct_is_write_str", "crate::fmt_ax::axiom_empty_tuple_is_write_str"] + P.tags.get("broadcast", []))
         body += items
         self.edits[P.pid] = log
         text = "pub mod %s {\n    use super::*;\n%s\n}\n" % (P.pid, emit.indent("\n".join(body)))
